@@ -1,5 +1,11 @@
+#![allow(dead_code)]
 mod util;
 mod cmd_domains;
+mod cmd_transcript;
+mod cmd_vector;
+mod merkle;
+mod hashes;
+mod terms;
 
 fn main() {
     util::install_panic_hook();
@@ -11,6 +17,8 @@ fn main() {
     let rest = &args[2..];
     match args[1].as_str() {
         "domains" => cmd_domains::run(rest),
+        "transcript" => cmd_transcript::run(rest),
+        "vector" => cmd_vector::run(rest),
         "build-info" => {
             println!("{}", build_info());
         }
